@@ -537,6 +537,8 @@ def e_args0(ctx, s):
     for b in lib.bodies.values():
         for bb, st in aggregates(b, ADT["Directive"]):
             n += 1
+            if b.j.get("impl_trait") == "std::clone::Clone" and b.span.get("exp"):
+                continue        # a derived Clone copies `args` as it is
             if b.name != ROLE["directive_new"]:
                 return None
     if n == 0:
@@ -893,12 +895,33 @@ def site_key(s):
     return [s.b.name, s.kind, s.what, "/".join(ops)]
 
 
+DEBUG_ASSERT_RE = re.compile(r"(^|::)debug_assert(_eq|_ne)?$")
+
+
+def debug_only(b, bb):
+    """the block runs only under `cfg!(debug_assertions)` as written by debug_assert!/debug_assert_eq!/debug_assert_ne!: guarded by the true
+    edge of the constant switch those macros expand to"""
+    cut = set()
+    for sbb in C.switches(b):
+        sp = b.term(sbb).get("span") or {}
+        ms = sp.get("macros") or []
+        if ms and ms[0].endswith("::cfg") and any(DEBUG_ASSERT_RE.search(m) for m in ms[1:]):
+            for eid, succ, lab in b.edges(sbb):
+                if lab is not None and not (lab[0] == "val" and lab[1] == 0):
+                    cut.add(eid)
+    return bool(cut) and C.guarded(b, bb, cut)
+
+
 @rule("C18", "R18.1", floor=34)
 def r18_1(ctx):
     for s in inventory(ctx):
         if s.what.startswith("threadpool::"):
             continue
         site = ctx.site(s.b, s.bb, s.t.get("span"))
+        if s.kind != "fnitem" and debug_only(s.b, s.bb):
+            ctx.unverified("|".join(site_key(s)), site=site, detail="inside debug_assert!: compiled only with debug assertions on, absent from release "
+                           "builds — its condition is not decided here")
+            continue
         if s.kind == "fnitem":
             ctx.violation([s.b.name, "fnitem", s.what], "may-panic function %s passed as a value (e.g. .map(Option::unwrap)): cannot be discharged" % s.what, site=site)
             continue
